@@ -855,6 +855,33 @@ func init() {
 	// ---- os
 	reg("os.Getenv", func(in *Interp, fr *frame, a []Value) Value { return "" })
 	reg("os.LookupEnv", func(in *Interp, fr *frame, a []Value) Value { return Tuple{"", tFalse} })
+	// Files: an in-memory file system per path. Writing below a directory named "verif-missing-dir"
+	// fails (the harness' way of injecting a write failure that also fails natively).
+	reg("os.WriteFile", func(in *Interp, fr *frame, a []Value) Value {
+		name, ok := a[0].(string)
+		if !ok {
+			in.abort("unsupported: os.WriteFile with a symbolic file name")
+		}
+		if strings.Contains(name, "verif-missing-dir/") {
+			return in.newError("os.WriteFile", nil)
+		}
+		if in.files == nil {
+			in.files = map[string]Value{}
+		}
+		data, _ := a[1].(Slice)
+		in.files[name] = append(Slice{}, data...)
+		return Iface{}
+	})
+	reg("os.ReadFile", func(in *Interp, fr *frame, a []Value) Value {
+		name, ok := a[0].(string)
+		if !ok {
+			in.abort("unsupported: os.ReadFile with a symbolic file name")
+		}
+		if d, ok := in.files[name]; ok {
+			return Tuple{append(Slice{}, d.(Slice)...), Iface{}}
+		}
+		return Tuple{Slice(nil), in.newError("os.ReadFile", nil)}
+	})
 	reg("os.Hostname", func(in *Interp, fr *frame, a []Value) Value { return Tuple{"verif-host", Iface{}} })
 
 	// ---- runtime odds and ends
